@@ -31,12 +31,49 @@ def run_bringup(ncp_v, path_kind="serial", second_reset=False, fault=None):
         d, idx, kind = fault
 
         def h2n(data):
+            if counters.get("deaf"):
+                return None          # the NCP is restarting: it hears nothing
             if d == "rst":
                 # a DATA frame of the OLD session (a callback that was in flight) reaches the host after it has written its
                 # k-th RST and before the RSTACK: frame number 0, or the number the host expected next in the old session
                 if bytes(data).lstrip(b"\x1a").startswith(b"\xc0"):
                     k = counters["rst"] = counters.get("rst", 0) + 1
-                    if k - 1 == idx:
+                    if k - 1 == idx and kind == "poweron":
+                        # the NCP had just restarted by itself (power-on / watchdog): its spontaneous RSTACK, carrying that cause,
+                        # reaches the host after the host has written its RST and before the RSTACK that answers it
+                        import ashref
+                        out["fault_hit"] = "spontaneous RSTACK (power-on) between RST and RSTACK"
+                        s.loop.call_soon(s.line._deliver, ashref.wire(("RSTACK", 2, 0x02)))
+                        # ... and the NCP takes 40 ms to obey the RST, deaf meanwhile, before it answers with its RSTACK
+                        counters["deaf"] = True
+
+                        def obeyed(_data=data):
+                            counters["deaf"] = False
+                            s.ncp.feed(_data)
+                            s.line.flush()
+                        s.loop.call_later(0.04, obeyed)
+                        return None
+                    elif k - 1 == idx and kind == "busy":
+                        # another task of the application (the watchdog, a queued request) issues a command while the reset
+                        # handshake is in progress -- the NCP takes 50 ms to obey the RST, deaf meanwhile
+                        out["fault_hit"] = "a command issued by another task between RST and RSTACK"
+                        counters["deaf"] = True
+
+                        def obeyed2(_data=data):
+                            counters["deaf"] = False
+                            s.ncp.feed(_data)
+                            s.line.flush()
+
+                        async def other():
+                            try:
+                                await s.ez.nop()
+                                out["other_task"] = "answered"
+                            except BaseException as e:  # noqa
+                                out["other_task"] = type(e).__name__ + ": " + str(e)[:60]
+                        s.loop.call_later(0.05, obeyed2)
+                        s.loop.call_later(0.01, lambda: s.spawn(other()))
+                        return None
+                    elif k - 1 == idx:
                         import ashref
                         frm = 0 if kind == "stale0" else s.ash._rx_seq
                         out["fault_hit"] = f"old-session DATA({frm}) between RST and RSTACK"
@@ -119,6 +156,7 @@ def run_bringup(ncp_v, path_kind="serial", second_reset=False, fault=None):
         except BaseException as e:  # noqa
             ph["done"] = "raise:" + type(e).__name__
         ph["version_frames"] = [f.hex() for f in raw_seen[mark:] if _fid(f) == 0]
+        ph["first_frame"] = raw_seen[mark].hex() if len(raw_seen) > mark else None
         ph["rst_written"] = any(w[1].startswith(b"\x1a\xc0\x38\xbc\x7e") for w in s.serial.written[wmark:])
         ph["ezsp_version"] = s.ez.ezsp_version
         ph["handler"] = s.ez._protocol.VERSION
@@ -212,7 +250,7 @@ class Check(PropertyCheck):
         for v in ((4, 8, 13) if tier == "quick" else versions):
             for path in ("serial", "socket-seen", "socket-absent"):
                 for k in (0, 1):
-                    for kind in ("stale0", "stalecur"):
+                    for kind in ("stale0", "stalecur", "poweron") + (("busy",) if k == 1 else ()):
                         cases.append({"v": v, "path": path, "second": True, "fault": ("rst", k, kind)})
         # the reset handshake has no retry: a lost or damaged RST / RSTACK makes that bring-up time out.  The NEXT reset on the
         # same objects (a retry by the caller, the application's later reset) runs over a healthy line and must work
@@ -314,6 +352,11 @@ class Check(PropertyCheck):
             if recoverable and ((ph.get("later") or "").startswith("raise") or ph.get("config") != "ok"):
                 return (f"NCP v{v} ({case['path']}): after a single {case['fault'][2]} fault the first command / the default configuration "
                         f"failed: later={ph.get('later')!r} config={ph.get('config')!r}")
+            ff = ph.get("first_frame")
+            if ph["tag"] == "second" and ff is not None and bytes.fromhex(ff)[1:] != bytes([0x00, 0x00, 0x04]):
+                return (f"NCP v{v} ({case['path']}): after the later reset the first EZSP frame the NCP received is {ff}, not the "
+                        f"legacy-format version query: framing did not fall back to the legacy format until negotiation was repeated"
+                        f"{' (' + obs.get('fault_hit') + ')' if obs.get('fault_hit') else ''}")
             vf = [bytes.fromhex(x) for x in ph["version_frames"]]
             # duplicates on the line may make the NCP see a query twice: look at distinct consecutive frames
             dist = [f for i, f in enumerate(vf) if i == 0 or f != vf[i - 1]]
